@@ -11,7 +11,7 @@ PY = "/venv/bin/python"
 P = {
  "C01": ("All names with accidental strings up to length 8 (thorough 12) in every order are enumerated and each notes.* result is compared with own letter/semitone arithmetic; pairs, ints and malformed strings likewise; longer inputs are sampled with Hypothesis. Exhaustive below the bound, sampled above.",
          "Reference arithmetic in vlib/ref/theory.py; empty string excluded.",
-         "bounded-exhaustive enumeration + Hypothesis PBT vs reference model"),
+         "bounded-exhaustive enumeration + Hypothesis PBT vs reference model + coverage-guided fuzzing (atheris) of the string surface with the same oracle"),
  "C13": ("Every operation history up to depth 4 (thorough 5) over {place v, rest v, +, remove-last} for a 10-value sub-vocabulary in 6-14 meters, every single-value fill to exact capacity, constructed overflows by 1-5 vocabulary quanta, and seeded random 60-step histories over all seven operations are executed on a real Bar and compared after every step with an exact Fraction model; meter acceptance is enumerated over integer/float/non-finite units.",
          "Model in vlib/ref/barmodel.py; values handed over as ints or correctly rounded floats of the vocabulary rationals; float clauses at 1e-9.",
          "bounded-exhaustive history enumeration + model-based Hypothesis histories vs exact-rational model"),
@@ -29,7 +29,7 @@ P = {
          "bounded-exhaustive enumeration + Hypothesis note sets vs reference tables / brute-force specification"),
  "C06": ("Every library shorthand x 35 roots (thorough 49) is enumerated against an own formula table (letter + semitones per chord tone) and the named builders; every m/M alias spelling is enumerated; slash basses, polychords (half built to trigger the duplicate-skip rule), lists, NC and four malformed-input classes are sampled with Hypothesis (slash chords enumerated in thorough); table agreement between constructible shorthands and documented meanings is checked directly.",
          "Formula and meaning tables in vlib/ref/chords_ref.py written from theory/docstrings; empty string and empty halves excluded.",
-         "bounded-exhaustive enumeration + Hypothesis PBT vs formula table"),
+         "bounded-exhaustive enumeration + Hypothesis PBT vs formula table + coverage-guided fuzzing (atheris) of the string surface with the same oracle"),
  "C07": ("Every shorthand with >= 3 notes x 35 roots (thorough 49) x every rotation x both output forms is enumerated for the rebuild-and-name clause; all 21^3 three-note inputs for containment; sizes 0-2 exhaustively in the interval-naming domain; thousands of random 4-9 note inputs with both flags and root-position polychords for never-raises / same-length / constructible-names.",
          "Round trip through chords.from_shorthand plus a pinned meaning table and inversion ordinals in vlib/ref/chords_ref.py.",
          "bounded-exhaustive round-trip enumeration + Hypothesis PBT"),
@@ -41,7 +41,7 @@ P = {
          "bounded-exhaustive enumeration + Hypothesis floats vs exact-rational reference; step-budgeted termination check"),
  "C10": ("35 names (plus mixed-order names for int()) x octaves 0-9 enumerated for the pitch number and the int / 'Name-octave' / repr / copy reconstructions; all ordered pairs x six comparison operators (sampled in quick, all 122 500 in thorough); Hz conversion over 0..127 x standard pitches x detune up to 40 cents; Helmholtz round trip for every name and octave; velocity/channel bounds and malformed names; copy independence.",
          "Own pitch arithmetic; repr is unquoted with ast.literal_eval before being fed back.",
-         "bounded-exhaustive enumeration + Hypothesis PBT vs reference arithmetic / round trips"),
+         "bounded-exhaustive enumeration + Hypothesis PBT vs reference arithmetic / round trips + coverage-guided fuzzing (atheris) of the string surface with the same oracle"),
  "C16": ("Seeded random compositions, tracks and bars (all keys, 14-72 meters, integral and rounding tick values, chords, rests in every position incl. empty containers, channels, velocities, instruments, tempo-carrying containers, bpm 4-1000, repeat 0-3) and a systematic key x meter sweep are written through all five file writers and MidiFile.get_midi_data(); the bytes are parsed by an independent strict SMF reader and the decoded events compared with the events computed from the score description (multiset per tick + per-pitch on/off alternation + instrument-before-note ordering). The VLQ encoder is compared with a reference encoder on a dense range and all power-of-two neighbourhoods (thorough: all 2^28 values).",
          "Own SMF parser (vlib/ref/smf.py) and event model (vlib/ref/midimodel.py); values with an exact x.5 tick length are not generated.",
          "translation validation by an independent decoder over Hypothesis-generated programs + exhaustive VLQ enumeration"),
@@ -53,7 +53,7 @@ P = {
          "bounded-exhaustive enumeration + round trips + Hypothesis lists"),
  "C04": ("All 30 keys (notes, signature, accidentals, relatives, Key object), signature numbers -20..20 plus arbitrary integers, thousands of candidate key strings (near misses of valid keys, Hypothesis text) for the rejection clauses, and all 30 x 35 x 6 diatonic steps are enumerated against an own key table; every get_notes query is asked cold and warm (memo transparency).",
          "Key table and step patterns in vlib/ref/theory.py; empty string excluded.",
-         "bounded-exhaustive enumeration + Hypothesis text vs reference key table"),
+         "bounded-exhaustive enumeration + Hypothesis text vs reference key table + coverage-guided fuzzing (atheris) of the string surface with the same oracle"),
  "C17": ("Seeded random compositions restricted to velocities 1-127 and integral-tick values are written with write_Composition and read back with MIDI_to_Composition; compared per track on the flattened (ticks, pitch set) sequence, per-entry (pitch, channel, velocity), tempo, names, instrument numbers and, for single-key/meter tracks, key and meter of every bar; every key x meter systematically; bpm 4..1000 (thorough 7000) exhaustively; the VLQ reader on reference encodings (thorough: all 2^28); corrupted tags and format words must be rejected.",
          "Expected flattened sequence from the score description (vlib/ref/midimodel.py); the writer's own correctness is C16's subject (files are pre-validated by the independent SMF reader).",
          "round-trip property over Hypothesis-generated programs + exhaustive enumeration of tempo / VLQ / corruption domains"),
@@ -107,7 +107,7 @@ def main():
         "engines": [{
             "name": "pbt", "path": "check",
             "serves_properties": [c["property_id"] for c in checks],
-            "kind_free_text": "Hypothesis 6.168 property-based testing (seeded from VERIF_SEED, shrinking to replay files) plus bounded-exhaustive enumeration, both against independent reference models in vlib/ref; sharded over 16 processes",
+            "kind_free_text": "Hypothesis 6.168 property-based testing (seeded from VERIF_SEED, shrinking to replay files), bounded-exhaustive enumeration and atheris/libFuzzer coverage-guided campaigns (C01, C04, C06, C10), all against independent reference models in vlib/ref; sharded over 16 processes",
         }],
         "checks": checks,
         "notes": "Run ./check <ID> [--tier quick|thorough] [--replay FILE]. Exit 0 = held, 1 = VIOLATION line printed, 2 = harness error (never a verdict). Genuine defects repaired in /repo are listed as 'fixed:' lines in KNOWN_FINDINGS.txt.",
